@@ -38,7 +38,7 @@ pub fn tier(name: &str) -> Tier {
         },
         _ => Tier {
             name: "quick",
-            runs: env_usize("VERIF_RUNS", 60_000),
+            runs: env_usize("VERIF_RUNS", 100_000),
             batch: 400,
             workers: cores,
             redo_batches: 6,
